@@ -2,7 +2,7 @@
 from .. import gen, core
 from . import common
 
-SPEC_THEOREM = 'Props/C07: every tree operation preserves well-formedness (invariant by induction over operation lists); canonical = enc of a wf value'
+SPEC_THEOREM = 'Props/C07: every tree operation preserves well-formedness (invariant by induction over operation lists); canonical = enc of a wf value; byte chains (run_b over the *_w walkers) = tree chains, every register canonical'
 TRUSTED = ['Coq 8.16.1 kernel', 'translator', 'extraction + OCaml driver', 'Rust harness', 'models TreeOps.v / SetOps.v / PathSem.v / Dispatch.v',
            'independent strict Python decoder (exact nested lengths, sorted unique keys, nothing trailing, re-encode identical)']
 ASSUMPTIONS = ['starting documents are canonical encodings of well-formed values; sizes stay below 2^28 bytes / 2^24 elements']
@@ -60,6 +60,26 @@ def pick_op(ctx, regs):
     return 'reencode %s' % e
 
 
+# positions of the register arguments of each step line (1-based fields after the op name); 'L' = a hex list of registers
+REG_ARGS = {'concat': (1, 2), 'delete_by_name': (1,), 'delete_by_index': (1,), 'delete_by_keypath': (1,), 'array_insert': (1, 3),
+            'array_distinct': (1,), 'array_intersection': (1, 2), 'array_except': (1, 2), 'object_insert': (1, 3), 'object_delete': (1,),
+            'object_pick': (1,), 'strip_nulls': (1,), 'build_array': ('L1',), 'build_object': ('L2',), 'get_by_index': (1,),
+            'get_by_name': (1,), 'get_by_keypath': (1,), 'object_keys': (1,), 'select': (1,), 'reencode': (1,)}
+
+
+def chain_op(line, index):
+    """the step line with its register arguments replaced by @<register index> (the form the model's `chain` op reads: run_b of
+    ChainWalk.v); index: hex text of a document -> a register holding it"""
+    f = line.split(' ')
+    for pos in REG_ARGS[f[0]]:
+        if isinstance(pos, str):
+            k = int(pos[1:])
+            f[k] = '_' if f[k] == '_' else ','.join('@%d' % index[x] for x in f[k].split(','))
+        else:
+            f[pos] = '@%d' % index[f[pos]]
+    return ' '.join(f)
+
+
 def outputs_of(line, o):
     """documents contained in an 'ok' outcome of a step (possibly several for select all); None if not a document result"""
     if not o.startswith('ok ') or o.startswith('ok ='):
@@ -87,6 +107,12 @@ def judge(ctx):
     chains = [[(gen.enc(v), v), (gen.enc(w), w)] for v, w in zip(ctx.starts, reversed(ctx.starts))]
     rounds = ctx.scale(12, 40)
     total = changed = 0
+    # the whole chain again, through run_b of ChainWalk.v (the definition the byte-chain theorems of Props/C07.v are about):
+    # full register files (every document the implementation produced, in order), the operations with register indices
+    full = [[d for d, _ in regs] for regs in chains]
+    index = [{gen.hexarg(d): i for i, d in enumerate(f)} for f in full]
+    chain_ops = [[] for _ in chains]
+    clean = [True] * len(chains)
     for rnd in range(rounds):
         lines = []
         for k, regs in enumerate(chains):
@@ -99,15 +125,21 @@ def judge(ctx):
             total += 1
             if io == 'panic' or io.startswith('abort'):
                 ctx.violate('an operation in a chain panics', case=line, step=rnd, observed=io)
+                clean[k] = False
                 continue
             if io != mo:
                 ctx.violate('a chain step differs from the same step on the tree', case=line, step=rnd, expected_by_model=mo, observed=io)
+                clean[k] = False
                 continue
+            chain_ops[k].append(chain_op(line, index[k]))
             for d in outputs_of(line, io):
+                index[k].setdefault(gen.hexarg(d), len(full[k]))
+                full[k].append(d)
                 try:
                     v = gen.dec(d)
                 except gen.DecodeError as ex:
                     ctx.violate('an intermediate result is not canonical JSONB', case=line, step=rnd, observed=io[:300], why=str(ex))
+                    clean[k] = False
                     continue
                 if len(d) < 4000:
                     if d != regs[0][0]:
@@ -117,5 +149,23 @@ def judge(ctx):
             if len(regs) > 6:
                 del regs[0:len(regs) - 6]
         ctx.count('rounds', 'done')
+    # lock step is done: replay every violation-free chain as ONE evaluation of run_b over byte registers in the model and
+    # compare its final register file with the documents the implementation produced along the way
+    lines, want = [], {}
+    for k, ops in enumerate(chain_ops):
+        if clean[k] and ops:
+            lines.append('c%d chain %s %s' % (k, gen.hexlist(full[k][:2]), ' | '.join(ops)))
+            want['c%d' % k] = 'ok ' + ','.join(gen.hexarg(d) for d in full[k])
+    model = core.run_cases(core.DRIVER_BIN, lines, 'C07-chain')
+    whole = 0
+    for line in lines:
+        cid = line.split(' ', 1)[0]
+        mo = model.get(cid, 'missing')
+        if mo != want[cid]:
+            ctx.violate('the registers of a whole chain differ from run_b over byte registers (ChainWalk.v)', case=line[:2000],
+                        expected_by_model=mo[:600], observed=want[cid][:600])
+        else:
+            whole += 1
+    ctx.stats['whole_chains_equal_to_run_b'] = whole
     ctx.stats['chain_steps'] = total
     ctx.stats['chain_steps_producing_new_documents'] = changed
